@@ -228,3 +228,46 @@ Qed.
 
 Theorem repeat_iff_idx_guard idx : has_repeat (counts_of idx) = idx_guard idx.
 Proof. exact (idx_repeat_iff idx None). Qed.
+
+(* ---- window distinctness (stronger than "differs from the one before"): the counts of ANY set of
+   messages whose draw indices lie within one period are pairwise distinct, and the period is exact:
+   the count drawn PERIOD draws later is the same one. *)
+Theorem window_injective i j :
+  Z.abs (Z.of_nat i - Z.of_nat j) < PERIOD ->
+  nth_yield i seq_init = nth_yield j seq_init -> i = j.
+Proof.
+  intros Hw E. apply (cycle_equal_iff i j seq_init init_inv) in E.
+  pose proof consts_ok as (_ & HP & _).
+  apply Z.mod_divide in E; [|lia]. destruct E as [q Hq].
+  assert (q = 0) by nia. lia.
+Qed.
+
+Theorem window_NoDup idx :
+  NoDup idx ->
+  (forall i j, In i idx -> In j idx -> Z.abs (Z.of_nat i - Z.of_nat j) < PERIOD) ->
+  NoDup (counts_of idx).
+Proof.
+  unfold counts_of. induction idx as [|a r IH]; intros Hnd Hw; cbn [map]; [constructor|].
+  inversion Hnd as [|? ? Hna Hr]; subst. constructor.
+  - intros Hin. apply in_map_iff in Hin. destruct Hin as [b [Eb Hb]].
+    assert (b = a).
+    { apply window_injective; [apply Hw; [right; exact Hb | left; reflexivity] | exact Eb]. }
+    subst b. exact (Hna Hb).
+  - apply IH; [exact Hr|]. intros i j Hi Hj. apply Hw; right; assumption.
+Qed.
+
+Theorem period_exact i : nth_yield (i + Z.to_nat PERIOD) seq_init = nth_yield i seq_init.
+Proof.
+  pose proof consts_ok as (_ & HP & _).
+  apply (cycle_equal_iff _ _ seq_init init_inv).
+  replace (Z.of_nat (i + Z.to_nat PERIOD) - Z.of_nat i) with (1 * PERIOD) by lia.
+  apply Z.mod_mul. lia.
+Qed.
+
+(* the first PERIOD counts drawn on a connection are exactly SEQ_START .. SEQ_STOP in order *)
+Theorem first_period_counts k : Z.of_nat k < PERIOD -> nth_yield k seq_init = SEQ_START + Z.of_nat k.
+Proof.
+  intros Hk. rewrite nth_yield_closed by exact init_inv.
+  assert (E : spos seq_init = 0) by (vm_compute; reflexivity).
+  rewrite E. rewrite Z.add_0_l, Z.mod_small by lia. reflexivity.
+Qed.
